@@ -50,6 +50,13 @@ enum Lane {
     /// a read polled once where it was created, then handed to a spawned task that awaits it; the data
     /// comes after the hand-over (the completion must wake the task that now owns the future)
     HandOver,
+    /// two descriptors of one socket (a `dup`), a read pending on each; the peer writes one chunk, later a
+    /// second one: whichever read finds the first chunk gone must go on waiting and get the second
+    DupReads,
+    /// a multishot read whose consumer pauses (before its first look and between results) while the peer
+    /// writes several chunks and closes: results queued behind each other, the last one included, arrive in
+    /// order and complete
+    Multi,
 }
 
 #[derive(Clone, Debug)]
@@ -62,7 +69,7 @@ struct Plan {
 }
 
 fn gen_plan() -> Plan {
-    let lane = [Lane::PipeReads, Lane::UnixReads, Lane::UnixWrites, Lane::File, Lane::Meta, Lane::Pool, Lane::Duplex, Lane::HandOver][sim::choose("lane", 8)];
+    let lane = [Lane::PipeReads, Lane::UnixReads, Lane::UnixWrites, Lane::File, Lane::Meta, Lane::Pool, Lane::Duplex, Lane::HandOver, Lane::DupReads, Lane::Multi][sim::choose("lane", 10)];
     let n = 1 + sim::range("lane.ops", 0, 4) as usize;
     // distinct sizes, so that a swapped buffer is also visible in its capacity
     let ops = (0..n).map(|k| 1 + k * 3 + 16 * sim::range("op.size", 0, 6) as usize).collect();
@@ -148,7 +155,7 @@ fn ops_mix() -> RunResult {
     let seen = seen.borrow();
     // exactly once: one outcome per operation issued
     for (li, p) in plans.iter().enumerate() {
-        if matches!(p.lane, Lane::Meta | Lane::Pool | Lane::Duplex | Lane::HandOver) {
+        if matches!(p.lane, Lane::Meta | Lane::Pool | Lane::Duplex | Lane::HandOver | Lane::DupReads | Lane::Multi) {
             continue;
         }
         for k in 0..p.ops.len() {
@@ -479,6 +486,92 @@ async fn lane(li: usize, p: Plan, seed: u64, concurrent: bool, errs: &Errs, seen
                 other => errs.push("content", format!("lane {li}: the handed-over read returned {:?}", other.map(|r| r.0))),
             }
             keep.borrow_mut().push(Box::new(peer));
+        }
+        Lane::DupReads => {
+            let Ok((a, b)) = std::os::unix::net::UnixStream::pair() else { return };
+            let Ok(a2) = a.try_clone() else { return };
+            let (Ok(s1), Ok(s2)) = (compio_net::UnixStream::from_std(a), compio_net::UnixStream::from_std(a2)) else { return };
+            let c1 = sim::payload(seed ^ (li as u64) << 8 ^ 0xD1, 1 + p.ops[0] % 40);
+            let c2 = sim::payload(seed ^ (li as u64) << 8 ^ 0xD2, 1 + p.ops[0] % 23);
+            let peer = Rc::new(RefCell::new(b));
+            let t1 = p.feed[0].0;
+            for (t, d) in [(t1, c1.clone()), (t1 + 20 + p.feed[0].1 as u64, c2.clone())] {
+                let peer = peer.clone();
+                simkernel::at(at(t), format!("the peer of lane {li} writes {} bytes", d.len()), move || {
+                    let _ = peer.borrow_mut().write_all(&d);
+                });
+            }
+            let cap = c1.len().max(c2.len()) + 8;
+            async fn read(s: &compio_net::UnixStream, cap: usize) -> BufResult<usize, Vec<u8>> {
+                let mut r = s;
+                r.read(Vec::with_capacity(cap)).await
+            }
+            let (BufResult(r1, b1), BufResult(r2, b2)) = futures_util::join!(read(&s1, cap), read(&s2, cap));
+            let got = [(r1, b1), (r2, b2)];
+            // (transfers may be short) each read gets at least a byte, and one after the other they are the
+            // beginning of what the peer wrote
+            let stream: Vec<u8> = c1.iter().chain(c2.iter()).copied().collect();
+            let joined = |x: &Vec<u8>, y: &Vec<u8>| x.iter().chain(y.iter()).copied().collect::<Vec<u8>>();
+            let prefix = |v: Vec<u8>| v.len() <= stream.len() && v[..] == stream[..v.len()];
+            let ok = got.iter().all(|(r, b)| matches!(r, Ok(n) if *n > 0 && *n == b.len())) && (prefix(joined(&got[0].1, &got[1].1)) || prefix(joined(&got[1].1, &got[0].1)));
+            if !ok {
+                errs.push(
+                    "stream-content",
+                    format!("lane {li}: two reads on two descriptors of one socket, the peer wrote {} and later {} bytes: the reads returned {:?} ({} bytes) and {:?} ({} bytes), which is not the beginning of the peer's stream split over the two", c1.len(), c2.len(), got[0].0, got[0].1.len(), got[1].0, got[1].1.len()),
+                );
+            }
+            keep.borrow_mut().push(Box::new(peer));
+        }
+        Lane::Multi => {
+            use compio_io::AsyncReadMulti;
+            use futures_util::StreamExt;
+            let Ok((a, b)) = std::os::unix::net::UnixStream::pair() else { return };
+            let Ok(s) = compio_net::UnixStream::from_std(a) else { return };
+            let total: usize = p.feed.iter().map(|f| f.1).sum();
+            let table = Rc::new(sim::payload(seed ^ (li as u64) << 8 ^ 0x3317, total));
+            let cursor = Rc::new(std::cell::Cell::new(0usize));
+            let peer = Rc::new(RefCell::new(Some(b)));
+            let left = Rc::new(std::cell::Cell::new(p.feed.len()));
+            for (t, len) in p.feed.iter().copied() {
+                let (table, cursor, peer, left) = (table.clone(), cursor.clone(), peer.clone(), left.clone());
+                simkernel::at(at(t), format!("peer of lane {li} writes {len} bytes"), move || {
+                    let off = cursor.get();
+                    cursor.set(off + len);
+                    if let Some(s) = peer.borrow_mut().as_mut() {
+                        let _ = s.write_all(&table[off..off + len]);
+                    }
+                    left.set(left.get() - 1);
+                    if left.get() == 0 {
+                        peer.borrow_mut().take();
+                    }
+                });
+            }
+            // the consumer is slow: everything may be queued (the end of the stream too) before it looks
+            let pauses = [0u64, 3, 60];
+            compio_runtime::time::sleep(at(pauses[p.ops[0] % 3])).await;
+            let mut r = &s;
+            let mut st = r.read_multi(0).boxed_local();
+            let mut got = Vec::new();
+            let mut rounds = 0;
+            loop {
+                rounds += 1;
+                match st.next().await {
+                    Some(Ok(b)) if b.is_empty() => break,
+                    Some(Ok(b)) => got.extend_from_slice(&b),
+                    Some(Err(e)) if e.raw_os_error() == Some(libc::ENOBUFS) && rounds < 10_000 => compio_runtime::time::sleep(at(1)).await,
+                    Some(Err(e)) => {
+                        errs.push("stream-content", format!("lane {li}: the multishot read failed with {e} after {} of {total} bytes", got.len()));
+                        break;
+                    }
+                    None => break,
+                }
+                if p.ops.len() > 1 {
+                    compio_runtime::time::sleep(at(pauses[p.ops[1] % 3])).await;
+                }
+            }
+            if got[..] != table[..] {
+                errs.push("stream-content", format!("lane {li}: the multishot read delivered {} bytes up to the end of the stream, the peer wrote {total}: {}", got.len(), first_diff(&got, &table)));
+            }
         }
         Lane::Pool => {
             let hs: Vec<_> = p.ops.iter().copied().enumerate().map(|(k, len)| compio_runtime::spawn_blocking(move || (k, len * 3 + 1))).collect();
